@@ -65,7 +65,14 @@ def chain_case(runner, r, oc, reqs, pend, steps, kinds=("sm", "sm", "sm", "proto
                     if w:
                         edits[rel] = sorted(w)
                 hist["edits"].append(edits)
-                model, what = genlib.mutate_model(r, model) if not (directed and step == 0) else drop_an_event(r, model)
+                if directed == "drop-struct" and step == 0 and model["iface"]["structs"]:
+                    model = json.loads(json.dumps(model))
+                    del model["iface"]["structs"][r.randrange(len(model["iface"]["structs"]))]
+                    what = "drop-event-struct-directed"
+                elif directed and step == 0:
+                    model, what = drop_an_event(r, model)
+                else:
+                    model, what = genlib.mutate_model(r, model)
                 hist["models"].append(model)
                 hist["mutations"].append(what)
                 oc.stat("mutation_" + what)
@@ -111,7 +118,7 @@ def search():
     runner = genlib.Runner()
     oc = Outcome(PROP)
     for i in range(120):
-        chain_case(runner, r, oc, [], [], 3, directed=i % 4 == 1)
+        chain_case(runner, r, oc, [], [], 3, directed=("rename" if i % 4 == 1 else ("drop-struct" if i % 4 == 3 else False)))
         if oc.violations:
             return oc.violations[0]
     return None
@@ -131,7 +138,7 @@ def run(tier):
     reqs, pend = [], []
     n = 300 if thorough else 40
     for i in range(n):
-        chain_case(runner, r, oc, reqs, pend, r.choice([1, 2, 3, 4]) if thorough else r.choice([1, 2, 3]), big=thorough, directed=i % 10 == 3)
+        chain_case(runner, r, oc, reqs, pend, r.choice([1, 2, 3, 4]) if thorough else r.choice([1, 2, 3]), big=thorough, directed=("rename" if i % 10 == 3 else ("drop-struct" if i % 10 == 7 else False)))
         if oc.violations:
             break
     # a tree saved with CRLF line endings, then a model change: modulo the line terminator the result is what the LF copy gives
